@@ -563,6 +563,8 @@ func (st *State) initGhosts(r string, t types.Type) {
 			z = "0.0"
 		case "bytes", "ints":
 			z = "((as const (Array Int Int)) 0)"
+		case "reals":
+			z = "((as const (Array Int Real)) 0.0)"
 		}
 		h := st.heapTermIn(st.heap, "ghost:"+g.Name, 1, sort)
 		st.heapSet("ghost:"+g.Name, fmt.Sprintf("(store %s %s %s)", h, r, z))
